@@ -1755,7 +1755,10 @@ impl<'a, 'b> InternalDelphiLogicalLineParser<'a, 'b> {
                 }
             }
 
-            line_index -= 1;
+            let Some(prev_line_index) = line_index.checked_sub(1) else {
+                break;
+            };
+            line_index = prev_line_index;
         }
     }
 
